@@ -440,3 +440,36 @@ func VH_C12_cold_lin(kind, opA, opB int) {
 	vassert(got == ab || got == ba, "outcome-explained-by-a-sequential-order")
 	vreach("end")
 }
+
+// ---- rules that carry an expiry ----------------------------------------------------------
+//
+// The rule r is stored in fact form with a top-level expiry far in the future (so nothing
+// expires): every lookup hands out the rule body together with that expiry. Lookups are
+// reads; two of them at once, or one next to any other operation, must not write shared
+// state.
+
+func VH_C12_live_expiry_pair(kind, opA, opB int) {
+	env := vhNewEnv(kind)
+	t0 := int64(1600000000)
+	vsetNow(t0 * 1000000000)
+	_, err := env.state.Add(env.ctx, "x", Map{"a": "0"})
+	vassume(err == nil)
+	rf := vhRuleFact(map[string]interface{}{"a": "?x"})
+	rf["expires"] = float64(t0 + 100000)
+	_, err = env.state.Add(env.ctx, "r", rf)
+	vassume(err == nil)
+	var wg sync.WaitGroup
+	wg.Add(2)
+	ea := &vhEnv{kind: kind, ctx: env.ctx.SubContext(), store: env.store, state: env.state, loc: env.loc, name: env.name}
+	eb := &vhEnv{kind: kind, ctx: env.ctx.SubContext(), store: env.store, state: env.state, loc: env.loc, name: env.name}
+	go func() {
+		vhC12Op(ea, opA, "A")
+		wg.Done()
+	}()
+	go func() {
+		vhC12Op(eb, opB, "B")
+		wg.Done()
+	}()
+	wg.Wait()
+	vreach("end")
+}
